@@ -208,9 +208,9 @@ func (b *Bid) stranger(c *Ctx, cv *bidConv) *world.Account {
 	return c.W.Users[0]
 }
 
-// play emits the next scripted move of a conversation. Moves:
-// bid:N  counter:N  rebid:N  accept  breject  oaccept  oreject  cancel  wait
-// uexpire (EXPIRE by a stranger)  and the wrong-party variants x-...
+// play emits the next scripted move(s) of a conversation, one entry per block.
+// Moves: bid:N  counter:N  rebid:N  accept  breject  oaccept  oreject  cancel
+// wait  uexpire (EXPIRE by a stranger)  and the wrong-party variants x-...
 func (b *Bid) play(c *Ctx, cv *bidConv) (out []hist.TxSpec) {
 	if cv.closed || cv.next >= len(cv.moves) {
 		return nil
@@ -219,8 +219,15 @@ func (b *Bid) play(c *Ctx, cv *bidConv) (out []hist.TxSpec) {
 		cv.closed = true
 		return nil
 	}
-	mv := cv.moves[cv.next]
+	mvs := strings.Split(cv.moves[cv.next], "+") // a+b: several moves in one block
 	cv.next++
+	for _, mv := range mvs {
+		out = append(out, b.move(c, cv, mv)...)
+	}
+	return out
+}
+
+func (b *Bid) move(c *Ctx, cv *bidConv, mv string) (out []hist.TxSpec) {
 	arg := ""
 	if i := strings.Index(mv, ":"); i >= 0 {
 		mv, arg = mv[:i], OLT(int64(atoi(mv[i+1:])))
@@ -296,7 +303,8 @@ func (b *Bid) directed(c *Ctx) (out []hist.TxSpec) {
 		conv("counter offer rejected", A, us[4], 100, "bid:60", "counter:90", "x-oaccept", "breject")
 		conv("expired on request", B, us[0], 100, "bid:20", "x-counter:25", "uexpire")
 	case 7:
-		conv("haggling", A, us[5], 100, "bid:40", "counter:100", "rebid:70", "counter:85", "accept")
+		// two rounds inside one block: offers of one kind with the same offer time
+		conv("haggling", A, us[5], 100, "bid:40", "counter:100", "rebid:60+counter:90+rebid:70+counter:85", "accept")
 	case 8:
 		conv("counter offer left to expire", B, us[2], 5, "bid:10", "counter:500", "wait", "wait", "wait", "wait", "wait", "wait")
 	}
